@@ -8,10 +8,17 @@ export GOFLAGS=-mod=mod GOPROXY=off GOSUMDB=off GOTOOLCHAIN=local CGO_ENABLED=0
 export VERIF_DIR="$(pwd)"
 GO=${VERIF_GO:-go1.26}
 mkdir -p bin .work evidence replay
+BIN=bin/vcheck
+OVL=""
+if [ -n "${VERIF_OVERLAY:-}" ]; then
+  # development aid (tools/seedtest.sh): check a candidate change without touching /repo
+  BIN=.work/vcheck-ovl-$$; OVL="-overlay $VERIF_OVERLAY"
+  trap 'rm -f $BIN' EXIT
+fi
 build() {
   # the replace directive in go.mod points at /repo, so this always compiles /repo's current tree (hooks on)
   cp -f /repo/go.sum go.sum 2>/dev/null
-  $GO build -tags verif -o bin/vcheck ./cmd/vcheck
+  $GO build -tags verif $OVL -o $BIN ./cmd/vcheck
 }
 if [ "${1:-}" = "--build" ]; then build; exit $?; fi
 id="${1:?property id}"; mode="${2:?quick|thorough|--replay}"
@@ -22,5 +29,6 @@ if ! build > .work/build.$$.log 2>&1; then
   exit 2
 fi
 rm -f .work/build.$$.log
-if [ "$mode" = "--replay" ]; then exec bin/vcheck replay "${3:?replay file}"; fi
-exec bin/vcheck run "$id" "$mode"
+if [ "$mode" = "--replay" ]; then $BIN replay "${3:?replay file}"; exit $?; fi
+$BIN run "$id" "$mode"
+exit $?
